@@ -688,7 +688,27 @@ class Executor:
         -> ('head', {name: value}) | ('return', value)"""
         fn.parse()
         frame = Frame(fn)
-        if from_entry_args is not None:
+        if from_entry_args is not None and locals_by_name is not None:
+            # real prologue first (it computes whatever loop-invariant locals the function keeps), then the loop variables
+            # are replaced by the specified state and one iteration runs from the head
+            for i, a in enumerate(from_entry_args):
+                frame.cell(i + 1).value = a
+            r = self.exec_fn(fn, None, frame=frame, start_bb=0, stop_bb=head)
+            if not isinstance(r, LoopBack):
+                raise Unmodelled('the prologue of %s returned before reaching its loop' % fn.name)
+            # every variable the loop body assigns and the prologue initialised is loop-carried state: it must be specified
+            for name in sorted(fn.loop_assigned(head) - set(locals_by_name)):
+                idx = fn.debug.get(name)
+                if idx and idx[0] in frame.locals and frame.locals[idx[0]].value is not None:
+                    raise Unmodelled('loop-carried variable %r of %s has no specification in the harness' % (name, fn.name))
+            for name, v in locals_by_name.items():
+                idx = fn.debug.get(name)
+                if not idx:
+                    raise Unmodelled('no source variable %r in %s' % (name, fn.name))
+                frame.cell(idx[0]).value = v
+            frame.visits = {}
+            r = self.exec_fn(fn, None, frame=frame, start_bb=head, stop_bb=head)
+        elif from_entry_args is not None:
             for i, a in enumerate(from_entry_args):
                 frame.cell(i + 1).value = a
             r = self.exec_fn(fn, None, frame=frame, start_bb=0, stop_bb=head)
